@@ -6,6 +6,8 @@ import (
 	"testing"
 
 	"github.com/ipld/go-ipld-prime/codec/dagcbor"
+	"github.com/ipld/go-ipld-prime/datamodel"
+	"github.com/ipld/go-ipld-prime/node/basicnode"
 	"github.com/ipld/go-ipld-prime/node/bindnode"
 	"github.com/ipld/go-ipld-prime/schema"
 	"pgregory.net/rapid"
@@ -58,6 +60,38 @@ func c08Check(c C08Case, rec *evid.Rec) error {
 	}
 	if err := typedx.CheckViews(n2, tview, rview, "built at representation level"); err != nil {
 		return err
+	}
+	// 2b. generic Copy out of the typed node into the untyped implementation: the type-level content without
+	// its absent fields, and the representation content
+	for lvl, want := range []val.V{typedx.StripAbsent(tview), rview} {
+		src := datamodel.Node(n1)
+		if lvl == 1 {
+			src, _ = typedx.ReprOf(n1)
+		}
+		for _, np := range []datamodel.NodePrototype{basicnode.Prototype.Any, nodes.ProtoFor(nodes.BasicKind, want.K)} {
+			if want.Has(func(x val.V) bool { return x.K == val.Uint }) {
+				continue
+			}
+			// (Copy assigns children as they are: a nested typed struct stays typed inside the copy, absent
+			// fields and all. Only values whose absent fields are entries of the root are compared.)
+			nestedAbsent := false
+			for _, e := range tview.Ents {
+				nestedAbsent = nestedAbsent || e.V.Has(func(x val.V) bool { return x.K == val.Absent }) && e.V.K != val.Absent
+			}
+			for _, it := range tview.Items {
+				nestedAbsent = nestedAbsent || it.Has(func(x val.V) bool { return x.K == val.Absent })
+			}
+			if lvl == 0 && nestedAbsent {
+				continue
+			}
+			nb := np.NewBuilder()
+			if err := evid.Guard("datamodel.Copy", func() error { return datamodel.Copy(src, nb) }); err != nil {
+				return fmt.Errorf("Copy of the level-%d view of %s (%s) into basicnode failed: %w", lvl, c.Type, want.Short(200), err)
+			}
+			if got, err := nodes.Read(nb.Build()); err != nil || !val.Equal(got, want, val.Ordered) {
+				return fmt.Errorf("Copy of the level-%d view of %s into basicnode differs: %s (err %v)", lvl, c.Type, val.Diff(got, want), err)
+			}
+		}
 	}
 	// 3. encode the representation, decode it back through the representation builder
 	ref, rerr := refcbor.Encode(rview)
